@@ -87,6 +87,10 @@ def ap_handle_faucet():
             C("grandfathered", "res is Ok && tx.kind == TxKind::Faucet && is_grandfathered(spec_txhash(*tx)) ==> final(state).coins@ == old(state).coins@", "C19", char=True),
         ])
 
+def ss_is_frozen():
+    return dict(ensures=[C("frozen", "res == (self@.contains_key(coin.txhash) && coin.index == 0)", "C13", "C03",
+                           note="the frozen coin of a registered stake is output 0 of the staking transaction (proved in unit stakeset; declared as a stub wherever a change might call it: seed C03i)")])
+
 def ap_balanced():
     return dict(ensures=[C("iff", "res is Ok <==> balanced(tx_kind, in_coins@, out_coins@)", "C01", "C02", "C09", "C18",
                            note="C09/C18: a balanced non-faucet transaction has an input (MEL is always among the outputs' denominations), which is what DoscMint validation's `inputs.get(0).expect(..)` rests on (seed C09g)"),
@@ -144,8 +148,8 @@ def ap_check_tx_validity():
             C("distinct_cov", "forall|a: int, b: int| 0 <= a < b < tx.inputs@.len() && relevant_coins@.contains_key(tx.inputs@[a]) && relevant_coins@.contains_key(tx.inputs@[b]) ==> relevant_coins@[tx.inputs@[a]].coin_data.covhash != relevant_coins@[tx.inputs@[b]].coin_data.covhash", envelope_of="F-C04-cache"),
         ],
         ensures=[
-            C("exist", "res is Ok ==> forall|i: int| 0 <= i < tx.inputs@.len() ==> relevant_coins@.contains_key(#[trigger] tx.inputs@[i])", "C02", "C04", "C19", "C09", "C18"),
-            C("unlocked", "res is Ok && !lock_legacy(this.network, this.height) ==> forall|i: int| 0 <= i < tx.inputs@.len() ==> !new_stakes@.contains_key((#[trigger] tx.inputs@[i]).txhash) && !this.stakes@.contains_key(tx.inputs@[i].txhash)", "C13", "C02"),
+            C("exist", "res is Ok ==> forall|i: int| 0 <= i < tx.inputs@.len() ==> relevant_coins@.contains_key(#[trigger] tx.inputs@[i])", "C02", "C04", "C19", "C09", "C18", "C03", "C06"),
+            C("unlocked", "res is Ok && !lock_legacy(this.network, this.height) ==> forall|i: int| 0 <= i < tx.inputs@.len() ==> !new_stakes@.contains_key((#[trigger] tx.inputs@[i]).txhash) && !this.stakes@.contains_key(tx.inputs@[i].txhash)", "C13", "C02", "C03", "C06"),
             C("approved", "res is Ok ==> forall|i: int| 0 <= i < tx.inputs@.len() ==> script_approves(spec_covenants_map(*tx), relevant_coins@[tx.inputs@[i]].coin_data.covhash, *tx, #[trigger] env_of(*tx, relevant_coins@, i, spec_last_header(*this)))", "C04", "C02", "C19"),
             C("approved_first", "res is Ok ==> forall|i: int| 0 <= i < tx.inputs@.len() && first_occ(*tx, relevant_coins@, i) ==> script_approves(spec_covenants_map(*tx), relevant_coins@[tx.inputs@[i]].coin_data.covhash, *tx, #[trigger] env_of(*tx, relevant_coins@, i, spec_last_header(*this)))", "C04", "C02", "C19",
               note="holds WITHOUT the envelopes of the two C04 findings: the first input locked by each covenant hash is always run against its own environment (the cache cannot have it yet); this is what the marker / destroyed-output arguments of the batch level rest on"),
@@ -153,7 +157,7 @@ def ap_check_tx_validity():
               note="the position among the inputs that a covenant is told IS the input's position (the code passes `position as u8`); holds under the envelope `small`, fails without it: known finding F-C04-index"),
             C("balanced", "res is Ok ==> balanced(tx.kind, in_sums(tx.inputs@, relevant_coins@, tx.inputs@.len() as int), spec_total_outputs(*tx))", "C01", "C02", "C09", "C18"),
             C("errkind", "res is Err ==> !(res->Err_0 is WrongHeader)", "C06", char=True),
-            C("locked_err", "(exists|i: int| 0 <= i < tx.inputs@.len() && (new_stakes@.contains_key((#[trigger] tx.inputs@[i]).txhash) || this.stakes@.contains_key(tx.inputs@[i].txhash))) && !lock_legacy(this.network, this.height) ==> res is Err", "C13"),
+            C("locked_err", "(exists|i: int| 0 <= i < tx.inputs@.len() && (new_stakes@.contains_key((#[trigger] tx.inputs@[i]).txhash) || this.stakes@.contains_key(tx.inputs@[i].txhash))) && !lock_legacy(this.network, this.height) ==> res is Err", "C13", "C03", "C06"),
         ])
 
 def ap_output_coins_from_tx():
@@ -341,7 +345,7 @@ def ap_create_next_state():
 def ap_load_relevant_coins():
     return dict(
         requires=[C("wf", "this.coins.wf()")],
-        ensures=[C("rel", "res is Ok ==> rel_of(*this, txx@, res->Ok_0@)", "C02", "C01", "C19"),
+        ensures=[C("rel", "res is Ok ==> rel_of(*this, txx@, res->Ok_0@)", "C02", "C01", "C19", "C03", "C06"),
                  C("wellformed", "res is Ok ==> forall|q: int| 0 <= q < txx@.len() ==> spec_well_formed(#[trigger] txx@[q]) && outputs_fit(txx@[q]) && cov_weights_fit(txx@[q])", "C02", "C09", "C05"),
                  C("nodup", "res is Ok ==> inputs_distinct(txx@)", "C02", "C01", "C03"),
                  C("err", "res is Err ==> res->Err_0 is MalformedTx || res->Err_0 is NonexistentCoin", "C02", char=True)])
